@@ -46,7 +46,7 @@ def write_extracted(chk):
                                         "double": "DoubleProg"}[name], prog_to_tla(ex[name]["prog"])))
         for name, tn in (("field_chain", "Field"), ("scalar_chain", "Scalar")):
             f.write("%sDeclaredSquares == %d\n%sDeclaredMultiplies == %d\n" % (
-                tn, ex[name].get("declared_squares", -1), tn, ex[name].get("declared_multiplies", -1)))
+                tn, max(0, ex[name].get("declared_squares", 0)), tn, max(0, ex[name].get("declared_multiplies", 0))))
             f.write("%sTemps == {%s}\n" % (tn, ", ".join(tla_str(t) for t in ex[name].get("temps", []))))
         f.write("=============================================================================\n")
     return ex
